@@ -1,6 +1,7 @@
 package main
 
 import (
+	"errors"
 	"bytes"
 	"fmt"
 	"runtime"
@@ -743,6 +744,42 @@ func scriptedAgentScenarios(o *out, prop string) {
 			s.gs.Delete(goid())
 			emitHistory(o, prop, "calls-during-close-delivery", s.calls)
 		})
+	}
+	// (g) Stop and Close released at the same instant on a fresh agent with one transaction (whose handler takes a
+	// moment): Stop either wins (nil, and its event) or finds the agent closed; "no such transaction" is no answer
+	{
+		odd := ""
+		for round := 0; round < 1500 && odd == ""; round++ {
+			var mu sync.Mutex
+			events := 0
+			a := stun.NewAgent(func(e stun.Event) {
+				mu.Lock()
+				events++
+				mu.Unlock()
+				time.Sleep(20 * time.Microsecond)
+			})
+			id := agentTID(1 + round%50)
+			_ = a.Start(id, agentBase.Add(time.Hour))
+			_ = a.Start(agentTID(60), agentBase.Add(time.Hour))
+			start := make(chan struct{})
+			var serr, cerr error
+			var wg sync.WaitGroup
+			wg.Add(2)
+			go func() { defer wg.Done(); <-start; serr = a.Stop(id) }()
+			go func() { defer wg.Done(); <-start; cerr = a.Close() }()
+			close(start)
+			wg.Wait()
+			mu.Lock()
+			n := events
+			mu.Unlock()
+			if cerr != nil || !(serr == nil || errors.Is(serr, stun.ErrAgentClosed)) || n != 2 {
+				odd = fmt.Sprintf("x round %d: Stop returned %v, Close returned %v, %d terminal events for 2 transactions", round, serr, cerr, n)
+			}
+		}
+		if odd != "" {
+			o.failFor(prop, "not-linearizable", odd+" (Stop and Close released together: Stop must return nil or ErrAgentClosed, each transaction gets one event)")
+		}
+		o.count("stop-racing-close")
 	}
 	// (d) the handler of a transaction's terminal event (a response, a stop, a timeout) registers the same ID
 	// again: the transaction is already gone, so that Start succeeds and the new transaction stays
